@@ -320,6 +320,9 @@ func closureTarget(v ssa.Value) *ssa.Function {
 	return nil
 }
 
+// ClosureTarget is the exported form of closureTarget.
+func ClosureTarget(v ssa.Value) *ssa.Function { return closureTarget(v) }
+
 func alwaysNilResult(v ssa.Value, depth int) bool {
 	if depth > 3 {
 		return false
